@@ -72,6 +72,11 @@ CHECKS = {
     text="TLC checks over all count tables (3 names, counts 0..3) that the predicates ops_diff applies are pairwise disjoint, covering and equal to the declarative classes; 120/1500 generated pairs of trace sets (1-3 ranks, 1-3 steps, rank and iteration selections incl. proper subsets, CPU/GPU/ALL, long/short names, self-comparison through two objects and through the same object) go through the real API and TLC recomputes every row and class from the parsed frames.",
     note="Frames, iteration numbers and durations are those LabeledTrace parses; short names via the ShortName table in TraceModel.tla. " + TB,
     ref="DESIGN.md section 5 (C17)"),
+ "C18": dict(
+    technique="TLA+ filter algebra (Filters.tla: predicates, Apply, Composite) with laws model-checked by TLC (MC_Filters) + TLC trace validation of every filter class, composites and nested calls on real frames (Trace_Filters)",
+    text="TLC checks over every frame of <=2 (thorough 3) menu rows, both symbol-table modes and every sequence of <=2 filters: Selection, FoldMeaning, Idempotent and Commute for row-local filters, and exhibits the frame on which the position-based iteration filter does not commute (MC_Filters_iteridx.cfg); 150/2000 generated frames in three name representations x 8 applications (single, twice, both orders, composites/nested of 2-3 members) go through the real filter classes; TLC compares the returned ids, order and per-row content hashes with Composite(fs, frame) and checks the input is unmodified.",
+    note="Pattern matching through the committed NameTable.tla; content equality through a harness-computed hash over all columns. " + TB,
+    ref="DESIGN.md section 5 (C18)"),
 }
 
 NOT_YET = {}
